@@ -132,17 +132,18 @@ Definition cursor_left (s : est) (count : Z) : eres :=
 Definition cursor_right (s : est) (count : Z) : eres :=
   EOk (set_cursor s (ec s + get_cursor_right_position (edoc s) count)).
 
-(* Document.get_cursor_up_position / get_cursor_down_position: assert count >= 1 *)
-Definition get_cursor_up_position (d : doc) (count : Z) (pref : option Z) : option Z :=
-  if count <? 1 then None
-  else
-    let column := match pref with None => cursor_position_col d | Some p => p end in
-    Some (translate_row_col_to_index d (Z.max 0 (cursor_position_row d - count)) column - dcur d).
-Definition get_cursor_down_position (d : doc) (count : Z) (pref : option Z) : option Z :=
-  if count <? 1 then None
-  else
-    let column := match pref with None => cursor_position_col d | Some p => p end in
-    Some (translate_row_col_to_index d (cursor_position_row d + count) column - dcur d).
+(* Document.get_cursor_up_position / get_cursor_down_position: a negative
+   count moves the other way (fix 46fed32); count = 0 stays on the row *)
+Definition up_core (d : doc) (count : Z) (pref : option Z) : Z :=
+  let column := match pref with None => cursor_position_col d | Some p => p end in
+  translate_row_col_to_index d (Z.max 0 (cursor_position_row d - count)) column - dcur d.
+Definition down_core (d : doc) (count : Z) (pref : option Z) : Z :=
+  let column := match pref with None => cursor_position_col d | Some p => p end in
+  translate_row_col_to_index d (cursor_position_row d + count) column - dcur d.
+Definition get_cursor_up_position (d : doc) (count : Z) (pref : option Z) : Z :=
+  if count <? 0 then down_core d (- count) pref else up_core d count pref.
+Definition get_cursor_down_position (d : doc) (count : Z) (pref : option Z) : Z :=
+  if count <? 0 then up_core d (- count) pref else down_core d count pref.
 
 (* `self.preferred_column or col`: a preferred column of 0 is falsy *)
 Definition original_column (s : est) : Z :=
@@ -153,16 +154,10 @@ Definition original_column (s : est) : Z :=
 
 Definition cursor_up (s : est) (count : Z) : eres :=
   let oc := original_column s in
-  match get_cursor_up_position (edoc s) count (Some oc) with
-  | None => EErr E_ASSERT s
-  | Some d => EOk (with_pref (set_cursor s (ec s + d)) (Some oc))
-  end.
+  EOk (with_pref (set_cursor s (ec s + get_cursor_up_position (edoc s) count (Some oc))) (Some oc)).
 Definition cursor_down (s : est) (count : Z) : eres :=
   let oc := original_column s in
-  match get_cursor_down_position (edoc s) count (Some oc) with
-  | None => EErr E_ASSERT s
-  | Some d => EOk (with_pref (set_cursor s (ec s + d)) (Some oc))
-  end.
+  EOk (with_pref (set_cursor s (ec s + get_cursor_down_position (edoc s) count (Some oc))) (Some oc)).
 
 Definition start_selection (s : est) (ty : Z) : eres := EOk (with_sel s (Some (ec s, ty))).
 Definition exit_selection (s : est) : eres := EOk (with_sel s None).
@@ -191,21 +186,28 @@ Definition go_to_history (s : est) (i : Z) : eres :=
   else EOk s.
 
 (* history_backward / history_forward with history_search_text = None: every
-   entry matches; the loop stops when count reaches exactly 0 *)
-Definition history_backward (s : est) (count : Z) : eres :=
+   entry matches.  count = 0 does nothing, a negative count moves the other
+   way (fix cb187ee). *)
+Definition history_backward_pos (s : est) (count : Z) : eres :=
   if 0 <? ewi s then
-    let target := if 1 <=? count then Z.max 0 (ewi s - count) else 0 in
-    let s1 := set_working_index s target in
+    let s1 := set_working_index s (Z.max 0 (ewi s - count)) in
     EOk (set_cursor s1 (len (et s1)))
   else EOk s.
-Definition history_forward (s : est) (count : Z) : eres :=
+Definition history_forward_pos (s : est) (count : Z) : eres :=
   let n := len (ewl s) in
   if ewi s + 1 <? n then
-    let target := if 1 <=? count then Z.min (n - 1) (ewi s + count) else n - 1 in
-    let s1 := set_working_index s target in
+    let s1 := set_working_index s (Z.min (n - 1) (ewi s + count)) in
     let s2 := set_cursor s1 0 in
     EOk (set_cursor s2 (ec s2 + get_end_of_line_position (edoc s2)))
   else EOk s.
+Definition history_backward (s : est) (count : Z) : eres :=
+  if count =? 0 then EOk s
+  else if count <? 0 then history_forward_pos s (- count)
+  else history_backward_pos s count.
+Definition history_forward (s : est) (count : Z) : eres :=
+  if count =? 0 then EOk s
+  else if count <? 0 then history_backward_pos s (- count)
+  else history_forward_pos s count.
 
 (* auto_up / auto_down without completion state *)
 Definition auto_up (s : est) (count : Z) (go_to_start : bool) : eres :=
@@ -236,7 +238,8 @@ Definition paste (s : est) (data : str) (ty mode count : Z) : eres :=
   let d := edoc s in
   let before := mode =? 1 in
   let after := mode =? 2 in
-  if ty =? 0 then
+  if count <? 1 then set_document s (et s) (ec s) false     (* nothing to paste (fix ca1a4b5) *)
+  else if ty =? 0 then
     let ins := str_mul data count in
     let new_text :=
       if after then slice_to (et s) (ec s + 1) ++ ins ++ slice_from (et s) (ec s + 1)
@@ -292,7 +295,7 @@ Inductive handler :=
 | HVi_i | HVi_a | HVi_A | HVi_I | HViInsertKeyNav | HViInsertKeyIns | HViGoLeft
 | HViReplaceSingle | HViReplaceInsert | HViDigraph | HViQuickNormal
 | HViInsertMulti | HViBackspaceMulti | HViDeleteMulti | HViLeftMulti | HViRightMulti
-| HViOperatorInNav | HIgnore
+| HViOperatorInNav (arg_present : bool) | HIgnore
 | HViUpSel | HViDownSel | HViUpNav | HViGoUpK | HViDownNav | HViGoDownJ
 | HPreviousHistory | HNextHistory
 | HEmacsAutoUp | HEmacsAutoDown.     (* basic bindings: up/down -> auto_up/auto_down(count=event.arg) *)
@@ -398,7 +401,9 @@ Definition run_handler (h : handler) (s : est) (arg : Z) (data : str) : eres :=
                    end) (emc s) in
       let s1 := with_mc s ps' in
       if is_cursor_at_the_end_of_line (edoc s1) then EOk s1 else EOk (set_cursor s1 (ec s1 + 1))
-  | HViOperatorInNav => EOk (with_vi s (vmode s) true (Some arg) (vdig s) (vtemp s))
+  | HViOperatorInNav present =>
+      (* operator_arg = event.arg if event.arg_present else None (fix f3ffc71) *)
+      EOk (with_vi s (vmode s) true (if present then Some arg else None) (vdig s) (vtemp s))
   | HIgnore => EOk s
   | HViUpSel => cursor_up s arg
   | HViDownSel => cursor_down s arg
